@@ -24,6 +24,7 @@ EPS = ["1e-3", "1e-6", "1e-9", "1e-12"]
 _CTYPE = {"TAN": ("RA---TAN", "DEC--TAN"), "TPV": ("RA---TPV", "DEC--TPV"), "TANPV": ("RA---TAN", "DEC--TAN"),
           "SIP": ("RA---TAN-SIP", "DEC--TAN-SIP")}
 _PV_KEYS = (0, 1, 2, 4, 5, 6, 7, 8, 9, 10)
+PV_SET_KEYS = {"all": _PV_KEYS, "deg2": (0, 1, 2, 4, 5, 6), "deg1": (0, 1, 2), "one": (1,)}      # = PVSetKeys of Wcs.tla
 
 
 class LatticeError(Exception):
@@ -62,20 +63,26 @@ def make_header(h, s, crval, base=(Fr(0), Fr(0)), pv3zero=False):
         for j in (0, 1):
             hdr["cd%d_%d" % (i + 1, j + 1)] = exact(h["cd"][i][j] * u)
     if h["proj"] in ("TPV", "TANPV"):
+        pvsets = h.get("pvsets", ["all", "all"])
         for ax in (1, 2):
-            for j in _PV_KEYS:
+            for j in PV_SET_KEYS[pvsets[ax - 1]]:        # the two axes need not write the same keywords
                 hdr["pv%d_%d" % (ax, j)] = 1.0 if j == 1 else 0.0
-            if pv3zero:
+            if pv3zero and pvsets[ax - 1] == "all":
                 hdr["pv%d_3" % ax] = 0.0
         for c in h["co"]:
             hdr["pv%d_%d" % (c["ax"], c["j"])] = exact(rat(c["val"]) * Fr(2) ** (s * (c["deg"] - 1)))
     elif h["proj"] == "SIP":
         order = max([2] + [c["p"] + c["q"] for c in h["co"]])
-        hdr["a_order"] = order
-        hdr["b_order"] = order
+        ao, bo = h.get("ord", [order, order])               # declared orders: independent per axis
+        for c in h["co"]:
+            if c["p"] + c["q"] > (ao, bo)[c["ax"] - 1]:
+                raise LatticeError("coefficient above the declared order: %s" % (c,))
+        hdr["a_order"] = int(ao)
+        hdr["b_order"] = int(bo)
         if h["invkeys"]:
-            hdr["ap_order"] = order
-            hdr["bp_order"] = order
+            apo, bpo = h.get("iord", [order, order])
+            hdr["ap_order"] = int(apo)
+            hdr["bp_order"] = int(bpo)
         for c in h["co"]:
             hdr["%s_%d_%d" % ("ab"[c["ax"] - 1], c["p"], c["q"])] = exact(rat(c["val"]))
     return hdr
@@ -85,7 +92,8 @@ def pixel(h, pix, base=(Fr(0), Fr(0))):
     return exact(base[0] + rat(pix[0])), exact(base[1] + rat(pix[1]))
 
 
-TAN_REP = {"proj": "TAN", "crpix": [0, 0], "cd": [[1, 0], [0, 1]], "co": [], "invkeys": True}
+TAN_REP = {"proj": "TAN", "crpix": [0, 0], "cd": [[1, 0], [0, 1]], "co": [], "invkeys": True,
+           "ord": [0, 0], "iord": [0, 0], "pvsets": ["all", "all"]}
 
 
 # ---- projection kernel (DESIGN 4.1): great-circle separation in long double ----------------------
@@ -193,20 +201,30 @@ def realistic_header(rng, kind, crval=None, crpix=None, invkeys=True):
         r = rpx * scale
         hdr.update(pv1_0=rng.uniform(-1e-2, 1e-2) * r, pv1_1=1 + rng.uniform(-3e-2, 3e-2), pv1_2=rng.uniform(-2e-2, 2e-2),
                    pv2_0=rng.uniform(-1e-2, 1e-2) * r, pv2_1=1 + rng.uniform(-3e-2, 3e-2), pv2_2=rng.uniform(-2e-2, 2e-2))
+        # the two axes need not carry the same coefficient set: highest degree written per axis
+        top = rng.choice([(3, 3), (3, 3), (3, 1), (2, 3), (1, 3), (3, 2)])
         for j in (4, 5, 6, 7, 8, 9, 10):
             n = 2 if j < 7 else 3
-            hdr["pv1_%d" % j] = rng.uniform(-f, f) / r ** (n - 1)
-            hdr["pv2_%d" % j] = rng.uniform(-f, f) / r ** (n - 1)
+            v1, v2 = rng.uniform(-f, f) / r ** (n - 1), rng.uniform(-f, f) / r ** (n - 1)
+            if n <= top[0]:
+                hdr["pv1_%d" % j] = v1
+            if n <= top[1]:
+                hdr["pv2_%d" % j] = v2
     elif kind == "SIP":
-        order = rng.choice([2, 3, 4])
-        hdr.update(a_order=order, b_order=order)
+        # A_ORDER and B_ORDER are independent in the convention, and so are AP_ORDER and BP_ORDER
+        ao, bo = rng.choice([(2, 2), (3, 3), (4, 4), (2, 3), (3, 2), (4, 2), (2, 4), (3, 5), (5, 3)])
+        apo, bpo = rng.choice([(ao, bo), (max(ao, bo), max(ao, bo)), (bo + 1, ao), (2, 5), (5, 2)])
+        hdr.update(a_order=ao, b_order=bo)
         if invkeys:
-            hdr.update(ap_order=order, bp_order=order)
-        for p in range(order + 1):
-            for q in range(order + 1):
-                if 2 <= p + q <= order:
-                    hdr["a_%d_%d" % (p, q)] = rng.uniform(-f, f) / rpx ** (p + q - 1)
-                    hdr["b_%d_%d" % (p, q)] = rng.uniform(-f, f) / rpx ** (p + q - 1)
+            hdr.update(ap_order=apo, bp_order=bpo)
+        toponly = rng.random() < 0.25        # coefficients only at the highest order of the axis
+        for pre, order in (("a", ao), ("b", bo)):
+            for p in range(order + 1):
+                for q in range(order + 1):
+                    if 2 <= p + q <= order:
+                        v = rng.uniform(-f, f) / rpx ** (p + q - 1)
+                        if not toponly or p + q == order:
+                            hdr["%s_%d_%d" % (pre, p, q)] = v
     assert proj
     return hdr
 
